@@ -35,6 +35,18 @@ def parseDEntry (w : String) : Option DEntry :=
       pure { isDir := false, path := p, mode := ← parseOctal m, content := b }
   | _ => none
 
+/-- C17: what `ObjectFile::ObjectFile` + `refresh(true)` conclude about a file seen for the first time: usable iff the attribute loop ends normally with at least one attribute -/
+def loadsValid (bs : Bytes) : Bool :=
+  match decodeFile bs with
+  | .valid _ (_ :: _) => true
+  | _ => false
+
+/-- the object files of a dumped token directory: `<token dir>/<name>.object`, not `token.object` -/
+def objectFiles (ents : List DEntry) : List DEntry :=
+  ents.filter (fun e => !e.isDir && e.path.endsWith ".object" && !e.path.endsWith "token.object")
+
+def countLoadable (ents : List DEntry) : Nat := ((objectFiles ents).filter (fun e => loadsValid e.content)).length
+
 def mvalOf (e : Nat × Nat × Bytes) : Nat × MVal :=
   let (ty, kind, raw) := e
   (ty, if kind == 1 then .bool (raw.headD 0 != 0) else if kind == 2 then .ulong (leToNat raw) else .bytes raw)
